@@ -193,7 +193,7 @@ def reg_state():
     return ([c.__name__ for c in GLOBAL_REGISTRY.types], sorted((a.__name__, b.__name__) for a, b in GLOBAL_REGISTRY.replaces))
 
 
-def run_program(prog, sched_order=None, solo=None, want_fresh=False):
+def run_program(prog, sched_order=None, solo=None, want_fresh=False, inline=False):
     """prog: {thread: [job names]}.  Runs every thread's jobs (forced interleaving if sched_order) and records the events."""
     rec = SessionRecorder(Sched(sched_order) if sched_order else None)
     reg0 = reg_state()
@@ -219,6 +219,12 @@ def run_program(prog, sched_order=None, solo=None, want_fresh=False):
         if rec.sched:
             rec.sched.finish(t)
 
+    if inline:
+        # on the calling (importing) thread: used to measure the jobs independently of what other threads can do
+        with rec.install():
+            for t, jobs in sorted(prog.items()):
+                worker(t, jobs)
+        return rec.events, False
     with rec.install():
         threads = [threading.Thread(target=worker, args=(t, jobs), name=t) for t, jobs in sorted(prog.items())]
         for th in threads:
@@ -232,11 +238,11 @@ def measure():
     """K (context reads) and F (reads before the planned failure) of every job, from solo runs; solo output hashes"""
     K, F, solo = {}, {}, {}
     for name, job in JOBS.items():
-        evs, _ = run_program({"t1": [name]})
+        evs, _ = run_program({"t1": [name]}, inline=True)
         reads = [e for e in evs if e["ev"] == "Read"]
         ok_job = dict(job, fail_at=0)
         JOBS["_tmp"] = ok_job
-        evs_ok, _ = run_program({"t1": ["_tmp"]})
+        evs_ok, _ = run_program({"t1": ["_tmp"]}, inline=True)
         del JOBS["_tmp"]
         K[name] = len([e for e in evs_ok if e["ev"] == "Read"])
         F[name] = len(reads) if job["fail_at"] else 99
